@@ -111,3 +111,30 @@ func TestGvcAdapterServePrefixedFrom(t *testing.T) {
 	}
 	fmt.Println("NOT-REPRODUCED serve: the automatic reply is addressed to the unqualified from attribute")
 }
+
+// The stanza's own from attribute is normalised even when an attribute of
+// another namespace that is also called from comes first.
+func TestGvcAdapterServeOwnFromBehindPrefixedFrom(t *testing.T) {
+	in := `<message xmlns="jabber:client" xmlns:x="urn:x" x:from="q" from="test@example.net"><body>hi</body></message>`
+	var out bytes.Buffer
+	rw := struct {
+		io.Reader
+		io.Writer
+	}{strings.NewReader(in), &out}
+	s := xmpptest.NewClientSession(0, rw)
+	seen := "<handler not called>"
+	_ = s.Serve(xmpp.HandlerFunc(func(t xmlstream.TokenReadEncoder, start *xml.StartElement) error {
+		for _, a := range start.Attr {
+			if a.Name.Space == "" && a.Name.Local == "from" {
+				seen = a.Value
+			}
+		}
+		return nil
+	}))
+	if seen != "" {
+		fmt.Printf("REPRODUCED serve: %s on a session whose own address is test@example.net: the handler saw from=%q (want it presented as empty)\n", in, seen)
+		t.Fail()
+		return
+	}
+	fmt.Println("NOT-REPRODUCED serve: the own bare from address is presented as empty")
+}
